@@ -14,8 +14,9 @@ mkdir -p $W-verif
 git -C /verif archive HEAD cmd engine shim harness tools go.mod known_findings.json | tar -x -C $W-verif
 (cd $W-verif && GOFLAGS=-mod=mod GOPROXY=off GOSUMDB=off GOTOOLCHAIN=local go1.26.8 build -o vcheck ./cmd/vcheck) || { echo "$id: cannot build frozen vcheck" | tee -a $D/check.log; exit 2; }
 for p in "$@"; do
-  out=$(cd $W-verif && VERIF_DIR=$W-verif VERIF_REPO=$W VERIF_WORK=$W-work VERIF_EVIDENCE_DIR=$W-ev ./vcheck $p --tier $tier 2>&1 | tr -d '\000')
+  (cd $W-verif && VERIF_DIR=$W-verif VERIF_REPO=$W VERIF_WORK=$W-work VERIF_EVIDENCE_DIR=$W-ev ./vcheck $p --tier $tier > $W-out.txt 2>&1)
   rc=$?
+  out=$(tr -d '\000' < $W-out.txt); rm -f $W-out.txt
   v=$(echo "$out" | grep -m1 -A3 '^VIOLATION' | tr '\n' ' ' | cut -c1-600)
   echo "== $(date -u +%FT%TZ) $id check=$p tier=$tier repo=$(git -C /repo rev-parse --short HEAD) verif=$(git -C /verif rev-parse --short HEAD) exit=$rc :: ${v:-$(echo "$out" | tail -1)}" | tee -a $D/check.log
 done
